@@ -9,6 +9,7 @@ import (
 	"runtime/debug"
 	"sort"
 	"strings"
+	"sync"
 	"time"
 
 	"golang.org/x/tools/go/ssa"
@@ -71,12 +72,24 @@ func cmdDump(args []string) {
 }
 
 // verifyFunc generates and discharges the obligations of one function.
-func verifyFunc(w *world, fn *ssa.Function, lite bool, depth int, exclude []string, opt dischargeOpts) (g *gen, res []result, err error) {
+var genMu sync.Mutex
+
+func verifyFunc(w *world, fn *ssa.Function, lite bool, depth int, exclude []string, locks []string, opt dischargeOpts) (g *gen, res []result, err error) {
 	defer func() {
 		if r := recover(); r != nil {
 			err = fmt.Errorf("engine failure on %s: %v\n%s", fnKeyQ(fn), r, debug.Stack())
 		}
 	}()
+	// generation touches shared tables (type tags, global ids, contract cache): one unit at a time; the slow part
+	// (discharge) runs concurrently for several units
+	genMu.Lock()
+	locked := true
+	defer func() {
+		if locked {
+			genMu.Unlock()
+		}
+	}()
+	lockFilter = locks
 	// pass 1 discovers loops whose body havocs the whole heap; pass 2 generates the obligations
 	var fc *fnCtx
 	havocLoops := map[*ssa.BasicBlock]bool{}
@@ -143,6 +156,8 @@ func verifyFunc(w *world, fn *ssa.Function, lite bool, depth int, exclude []stri
 		}
 		g.obls = kept
 	}
+	genMu.Unlock()
+	locked = false
 	res = g.discharge(sanitizeSym(fnKeyQ(fn)), opt)
 	return g, res, nil
 }
@@ -177,7 +192,7 @@ func cmdFn(args []string) {
 			continue
 		}
 		t1 := time.Now()
-		g, res, err := verifyFunc(w, fn, *lite, *depth, nil, dischargeOpts{dir: *out, timeout: *timeout, parallel: parallelism(), keep: *keep})
+		g, res, err := verifyFunc(w, fn, *lite, *depth, nil, lockFilter, dischargeOpts{dir: *out, timeout: *timeout, parallel: parallelism(), keep: *keep})
 		if err != nil {
 			fmt.Println(err)
 			failed++
@@ -407,7 +422,16 @@ func cmdCheck(args []string) {
 			os.Exit(2)
 		}
 		loadS += time.Since(tl).Seconds()
-		for _, u := range grp.Units {
+		type unitOut struct {
+			g   *gen
+			res []result
+			err error
+			fn  *ssa.Function
+		}
+		outs := make([]unitOut, len(grp.Units))
+		var uwg sync.WaitGroup
+		usem := make(chan struct{}, 6)
+		for ui, u := range grp.Units {
 			if u.Tier == "thorough" && *tier != "thorough" {
 				continue
 			}
@@ -416,9 +440,23 @@ func cmdCheck(args []string) {
 				engineErrors = append(engineErrors, "function not found: "+u.Func)
 				continue
 			}
+			outs[ui].fn = fn
+			uwg.Add(1)
+			go func(ui int, u propUnit, fn *ssa.Function) {
+				defer uwg.Done()
+				usem <- struct{}{}
+				defer func() { <-usem }()
+				g, res, err := verifyFunc(w, fn, u.Lite, u.depth(), u.Exclude, u.Locks, dischargeOpts{dir: smtDir, timeout: timeout, parallel: parallelism(), cross: *tier == "thorough", keep: *keep})
+				outs[ui] = unitOut{g, res, err, fn}
+			}(ui, u, fn)
+		}
+		uwg.Wait()
+		for ui, u := range grp.Units {
+			if outs[ui].fn == nil {
+				continue
+			}
 			funcs = append(funcs, u.Func)
-			lockFilter = u.Locks
-		g, res, err := verifyFunc(w, fn, u.Lite, u.depth(), u.Exclude, dischargeOpts{dir: smtDir, timeout: timeout, parallel: parallelism(), cross: *tier == "thorough", keep: *keep})
+			g, res, err := outs[ui].g, outs[ui].res, outs[ui].err
 			if err != nil {
 				engineErrors = append(engineErrors, err.Error())
 				continue
